@@ -103,8 +103,13 @@ Section Erase.
   (* registers that deleted instructions may clear are not call inputs *)
   Hypothesis HK : forall c, In c call_in_regs -> ~ K c.
   (* every deleted instruction is MOVE r r or NOOP, clears only K registers, dead afterwards *)
+  (* an op that, whatever its operands, neither traps nor changes memory (zero-length MCP/MCPI) *)
+  Definition skip_like (o : op) : Prop :=
+    exists opc args, kind o = KOther opc args /\ defs o = [] /\
+      forall vs m, exists vs', sem opc (imms_of args) vs m = Some (vs', m).
+
   Hypothesis Hdrop : forall i o, nth_error keep i = Some false -> nth_error ops i = Some o ->
-    droppable o = true /\ forall c, In c (cdefs o) -> K c /\ ~ live_out_c ops i c.
+    (droppable o = true \/ skip_like o) /\ forall c, In c (cdefs o) -> K c /\ ~ live_out_c ops i c.
 
   Let ops' := select keep ops.
 
@@ -124,8 +129,9 @@ Section Erase.
   Lemma label_index_select l : label_index ops' l = option_map (pos keep) (label_index ops l).
   Proof.
     unfold label_index, ops'. apply find_index_select; [exact Hlen|]. intros i x Hk Hx.
-    destruct (Hdrop i x Hk Hx) as [Hd _]. unfold droppable in Hd. unfold is_label.
-    destruct (kind x); try discriminate; reflexivity.
+    destruct (Hdrop i x Hk Hx) as [[Hd|(opc & args & Hd & _)] _]; unfold is_label.
+    - unfold droppable in Hd. destruct (kind x); try discriminate; reflexivity.
+    - rewrite Hd. reflexivity.
   Qed.
 
   Lemma eq_on_succ i o j rf rf' rs vs : nth_error ops i = Some o -> In j (succs ops i) ->
@@ -250,6 +256,18 @@ Section Erase.
         + eapply LG_use; [exact Hn|]. apply Hdu. exact Hid.
         + eapply LG_thru; try eassumption. unfold defs_c. intros Hin. apply in_app_or in Hin. tauto. }
     unfold step. cbn [pc rf mem]. rewrite Hn.
+    destruct Hd as [Hd|(opc & args & Hkd & Hnd & Hsk)].
+    2:{ rewrite Hkd in *. destruct (Hsk (map rg (uses o)) m) as [vs' Hs']. rewrite Hs'.
+        assert (Hne : N.eqb opc OPC_RVRT = false).
+        { destruct (N.eqb_spec opc OPC_RVRT) as [->|]; [|reflexivity]. rewrite Hrv in Hs'. discriminate. }
+        rewrite Hne in Hsucc.
+        eexists. split; [reflexivity|]. cbn [pc rf mem]. split; [reflexivity|].
+        split; [rewrite (pos_drop keep p Hk); exact Hpc|].
+        split; [destruct (se o); exact Hmem|].
+        apply Hgen.
+        - intros r Hr. rewrite Hnd. cbn [app]. apply write_list_other. exact Hr.
+        - rewrite Hsucc. left. reflexivity.
+        - rewrite Hnd. intros r []. }
     destruct (kind o) as [d s| |l|l|l c|l| |r|opc args] eqn:Hkind; try discriminate.
     - apply N.eqb_eq in Hd. subst s. destruct Hw as [Hdefs Hs].
       eexists. split; [reflexivity|]. cbn [pc rf mem]. split; [reflexivity|].
